@@ -110,7 +110,7 @@ def gen_colours(m, rng, job):
                         s = '%s%s256(%s %s%s)' % (pre, word, o_, fmtnum(v, hexa), c_)
                         run(m, {'op': 'scrub', 'leaves': [{'k': 'rgbs', 'v': s}]}, oplist)
     # malformed / mixed notations
-    bad = ['rgb(1,2)', 'rgb()', 'rgb(1,2,3,4)', 'rgb(a,b,c)', 'rgb(ff,0,0)', 'rgb(0x,1,2)', 'rgb(1,2,3', 'rgb 1,2,3', 'RGB(1,2,3)',
+    bad = ['rgb()1,2,3)', 'ul_color256()5)', 'rgb(1,2,3))', 'rgb(1,2)', 'rgb()', 'rgb(1,2,3,4)', 'rgb(a,b,c)', 'rgb(ff,0,0)', 'rgb(0x,1,2)', 'rgb(1,2,3', 'rgb 1,2,3', 'RGB(1,2,3)',
            'rgb(0X10,1,2)', 'rgb(-1,2,3)', 'color256()', 'color256(1,2)', 'color256(x)', 'xx_rgb(1,2,3)', 'rgb(1;2;3)', 'rgb(1,2,3) ',
            ' rgb(1,2,3)', 'colr256(1)', 'rgb(1.5,2,3)', 'rgb(0x10, 2f, 3)']
     for s in bad:
